@@ -66,6 +66,9 @@ def f64_is_nan (b : Nat) : Bool := b % 2 ^ 63 > 0x7ff0000000000000
 def f32_is_infinite (b : Nat) : Bool := b % 2 ^ 31 == 0x7f800000
 def f32_is_nan (b : Nat) : Bool := b % 2 ^ 31 > 0x7f800000
 
+/-- little-endian value of the first eight bytes of a slice (`u64::from_le(ptr::read_unaligned(..))`) -/
+def readU64LE (s : List Nat) : Nat := (s.take 8).foldr (fun b acc => b + 256 * acc) 0
+
 def divU (x y : Nat) : Outcome Nat := if y = 0 then .panic .rdivzero else .ok (x / y)
 def remU (x y : Nat) : Outcome Nat := if y = 0 then .panic .rdivzero else .ok (x % y)
 
